@@ -136,4 +136,22 @@ def specRowsForAll [Inhabited V] (W : World V) (D : VarId → List V) (vars : Li
     (D u).all fun o => sdenote W (asgOf ((u, o) :: β)) sc
   ok.map fun β => termsVal W (asgOf β) sel
 
+/-- All assignments of the given universal variables (first listed = first in the binding). -/
+def allUniv {V : Type} (D : VarId → List V) : List VarId → List (Bnd V)
+  | [] => [[]]
+  | u :: us => (D u).flatMap fun o => (allUniv D us).map fun β => (u, o) :: β
+
+/-- The specification of `and_(d?, for_all(us₁, c₁), for_all(us₂, c₂), …)` (conjuncts in any order):
+    the assignments of the free variables for which `d` holds and every `cᵢ` holds under EVERY
+    assignment of its universal variables. -/
+def specRowsStages [Inhabited V] (W : World V) (D : VarId → List V) (vars : List VarId)
+    (sel : List (Term V)) (outer : Option (SCond V)) (fas : List (List VarId × SCond V)) : List (List V) :=
+  let free := (match outer with | some c => c.free | none => []) ++ Terms.free sel ++
+    fas.flatMap fun p => p.2.free.filter fun v => !p.1.contains v
+  let bs := allBnds D (vars.filter free.contains)
+  let ok := bs.filter fun β =>
+    (match outer with | some d => sdenote W (asgOf β) d | none => true) &&
+    fas.all fun p => (allUniv D p.1).all fun ub => sdenote W (asgOf (ub ++ β)) p.2
+  ok.map fun β => termsVal W (asgOf β) sel
+
 end Eql
